@@ -168,6 +168,12 @@ pub struct W {
     pub taking: u32,
     pub faults_seen: u32,
     pub labels: Vec<String>,
+    /// ops of gets that have obtained their permit
+    pub admitted: Vec<u32>,
+    pub c08_nt: bool,
+    pub c09_took: bool,
+    pub c09_take_then_get: bool,
+    pub c09_released_by_shrink_or_close: bool,
 }
 
 pub struct World {
@@ -382,6 +388,9 @@ impl W {
                         format!("post_create hook called for idle object {}", id),
                     );
                 }
+                if self.idle_ref.len() >= 2 {
+                    self.c08_nt = true;
+                }
                 if self.idle_ref_exact {
                     let expect = if self.lifo {
                         self.idle_ref.back().copied()
@@ -491,6 +500,9 @@ impl W {
         }
         o.destroyed = true;
         o.destroyed_alive = !pool_dead;
+        if matches!(self.ops.get(op as usize), Some(OpKind::Resize) | Some(OpKind::Close)) {
+            self.c09_released_by_shrink_or_close = true;
+        }
         o.in_hand = None;
         let (loc, det) = (o.loc, o.detaches);
         self.idle_ref.retain(|x| *x != id);
@@ -569,6 +581,11 @@ impl World {
                 taking: 0,
                 faults_seen: 0,
                 labels: Vec::new(),
+                admitted: Vec::new(),
+                c08_nt: false,
+                c09_took: false,
+                c09_take_then_get: false,
+                c09_released_by_shrink_or_close: false,
             }),
         })
     }
